@@ -304,15 +304,32 @@ def run_prog(prog):
         m = prog["manual"]
         try:
             doist.doers = list(doers)
+            own = None
             try:
-                doist.enter()
-                for _ in range(m["recurs"]):
-                    doist.recur()
+                if m.get("own_deeds"):
+                    # the caller keeps the deeds: enter(doers=...) returns a fresh deque that every later
+                    # recur(deeds=...) / exit(deeds=...) must work on, leaving .deeds alone
+                    own = doist.enter(doers=handed)
+                    ctx.live.add(0)
+                    for _ in range(m["recurs"]):
+                        doist.recur(deeds=own)
+                else:
+                    doist.enter()
+                    for _ in range(m["recurs"]):
+                        doist.recur()
             except BaseException:
-                doist.exit()
+                if not m.get("own_deeds"):
+                    doist.exit()
+                elif own is not None:
+                    doist.exit(deeds=own)
                 raise
             if m["then"] == "do":
                 doist.do(doers=handed)
+            elif own is not None:
+                doist.exit(deeds=own)
+                if own or doist.deeds:
+                    raise RuntimeError("after enter(doers=...)/recur(deeds=...)/exit(deeds=...) the caller's deque holds "
+                                       f"{len(own)} deed(s) and the scheduler's own .deeds {len(doist.deeds)}")
             else:
                 doist.exit()
             ctx.log.append(("DoReturn", 0, doist.tyme))
@@ -800,8 +817,12 @@ def add_reruns(rng, p, n=None):
     """Further runs on the same Doist (do() without doers): optional new limit and tyme reset."""
     k = n if n is not None else rng.choice([1, 1, 2])
     p["again"] = []
+    # a limit of 0 given to a later run means "no limit from now on" (it replaces the kept one); only for programs
+    # every doer of which finishes by itself
+    finite = not any(d["kind"] == "nest" and (d.get("always") or d.get("opt_always")) for d in p["defs"].values())
     for _ in range(k):
-        p["again"].append({"limit": rng.choice([None, None, p["tock"], 2.5 * p["tock"], 0.7, -2 * p["tock"]]),
+        p["again"].append({"limit": rng.choice([None, None, p["tock"], 2.5 * p["tock"], 0.7, -2 * p["tock"]]
+                                               + ([0.0, 0.0, -0.0] if finite else [])),
                            "tyme": rng.choice([None, None, 0.0, 3.0, -2.0])})
     if rng.random() < 0.5:
         p["ctor"] = True
@@ -972,6 +993,8 @@ def gen_manual(rng, n, thens=("exit", "do", "do")):
         if not p["limit"]:
             p["limit"] = 3 * p["tock"]
         p["manual"] = {"recurs": rng.randint(0, 4), "then": rng.choice(list(thens))}
+        if p["manual"]["then"] == "exit" and rng.random() < 0.4:
+            p["manual"]["own_deeds"] = True
         out.append(p)
     return out
 
@@ -994,5 +1017,36 @@ def gen_remove_live(rng, n):
         c = rng.choice(callers)
         sc_ = p["defs"][str(c)]["script"]
         sc_[rng.randint(1, len(sc_) - 1)]["es"].append(["rem", t, members, rng.choice(["live", "gen"])])
+        out.append(p)
+    return out
+
+
+def gen_remove_hookraise(rng, n):
+    """One remove() of live doers one of which raises in its own cease or exit context (outside the Coq model: oracle
+    only): the call raises, but the doers it force-closed are removed all the same."""
+    out = []
+    for _ in range(n):
+        p = gen_static(rng, n_leaves=rng.randint(3, 6), nest_depth=rng.choice([0, 1]), faults=False, tocks="dyadic", limit_p=1.0)
+        p["limit"] = abs(p["limit"]) if p["limit"] else 4 * p["tock"]
+        targets = [(0, list(p["doers"]))] + [(int(i), list(d["kids"])) for i, d in p["defs"].items() if d["kind"] == "nest"]
+        t, members = rng.choice([x for x in targets if len(x[1]) >= 2] or targets[:1])
+        leaves = [m for m in members if p["defs"][str(m)]["kind"] != "nest"]
+        if len(leaves) < 2:
+            continue
+        if t != 0:
+            p["defs"][str(t)]["always"] = True
+        c = rng.choice(leaves)
+        victims = [m for m in leaves if m != c]
+        rng.shuffle(victims)
+        victims = victims[:rng.randint(1, len(victims))]
+        bad = rng.choice(victims)
+        for v in victims:                  # alive and suspended when the remove comes
+            p["defs"][str(v)]["script"] = [{"es": [], "out": ["y", None]} for _ in range(8)]
+        p["defs"][str(bad)]["hookraise"] = rng.choice(["cease", "exit"])
+        p["defs"][str(bad)]["hookexc"] = rng.choice(["script", "script", "attr"])
+        sc_ = p["defs"][str(c)]["script"]
+        while len(sc_) < 3:
+            sc_.insert(0, {"es": [], "out": ["y", None]})
+        sc_[rng.randint(1, len(sc_) - 1)]["es"].append(["rem", t, victims])
         out.append(p)
     return out
